@@ -32,6 +32,52 @@ func genCacheSuite(r *hx.R, tier, scratch, prop string) (*hx.Suite, error) {
 	}
 	probes := append(allPoolNames(), "vendor1.com/gpu=none", "bogus", "")
 	autoConverged, autoTotal := 0, 0
+	// a stream aimed at mode switches: an automatic-refresh cache with a missing directory (which it reports), switched to
+	// manual refresh, then the directory appears: the stale directory entry must be gone at once, the new files are seen
+	// at the next refresh
+	for k := 0; k < 6; k++ {
+		root := filepath.Join(scratch, fmt.Sprintf("m%d", k))
+		fs := genFS(r, root, false, faults, false)
+		fs.Dirs = append(fs.Dirs, &absDir{Path: filepath.Join(root, "late"), State: dirMissing})
+		if k%2 == 1 && len(fs.Dirs) > 1 {
+			fs.Dirs[0], fs.Dirs[len(fs.Dirs)-1] = fs.Dirs[len(fs.Dirs)-1], fs.Dirs[0]
+		}
+		fs.materialise()
+		cache, _ := cdi.NewCache(cdi.WithSpecDirs(fs.dirList()...), cdi.WithAutoRefresh(true))
+		emit := func(auto bool, history []string) {
+			var o cacheObs
+			if auto {
+				o = settle(cache, fs.dirList(), probes, 3*time.Second, fs.missingDirs())
+			} else {
+				o = observeCache(cache, probes, true)
+			}
+			o.Auto = auto
+			s.Add(hx.Case{Term: hx.C("Case01", fs.term(), o.term()),
+				Desc: map[string]interface{}{"dirs": fs.desc(), "auto_refresh": auto, "history": append([]string{}, history...),
+					"observed": map[string]interface{}{"devices": o.Devices, "error_keys": o.ErrKeys, "dir_error_keys": o.DirErrs, "refresh_error": o.RefErr}},
+				Class: "mode-switch", Key: fs.term() + fmt.Sprint(auto, len(history)), Nontrivial: true})
+		}
+		hist := []string{}
+		emit(true, hist)
+		_ = cache.Configure(cdi.WithAutoRefresh(false))
+		hist = append(hist, "configure: automatic refresh off")
+		emit(false, hist)
+		for _, d := range fs.Dirs {
+			if d.State == dirMissing {
+				d.State = dirDir
+				d.Entries = genDirEntries(r, "late", false, faults)
+				d.materialise()
+			}
+		}
+		hist = append(hist, "mkdir the missing directories, with content")
+		emit(false, hist)
+		if k%3 == 0 {
+			_ = cache.Configure(cdi.WithAutoRefresh(true))
+			hist = append(hist, "configure: automatic refresh on")
+			emit(true, hist)
+			_ = cache.Configure(cdi.WithAutoRefresh(false))
+		}
+	}
 	for li := 0; li < layouts; li++ {
 		root := filepath.Join(scratch, fmt.Sprintf("l%d", li))
 		auto := li%3 == 2
@@ -50,14 +96,21 @@ func genCacheSuite(r *hx.R, tier, scratch, prop string) (*hx.Suite, error) {
 			if st > 0 {
 				history = append(history, fs.mutate(r, false, faults))
 			}
+			if auto && st > 0 && r.Chance(0.15) {
+				// from here on the same cache runs in manual mode: whatever the watch reported must be forgotten
+				_ = cache.Configure(cdi.WithAutoRefresh(false))
+				auto = false
+				history = append(history, "configure: automatic refresh off")
+			}
 			var o cacheObs
 			if auto {
-				o = settle(cache, fs.dirList(), probes, 3*time.Second)
+				o = settle(cache, fs.dirList(), probes, 3*time.Second, fs.missingDirs())
 				autoTotal++
 				autoConverged++
 			} else {
 				o = observeCache(cache, probes, true)
 			}
+			o.Auto = auto
 			class := "manual"
 			if auto {
 				class = "auto"
